@@ -74,7 +74,7 @@ func graphInRep(rep string, n int, mask uint64) graph.Graph {
 func canonOf(rep string, n int, mask uint64) (c uint64, class, what string) {
 	var p []int
 	g := graphInRep(rep, n, mask)
-	if msg, pan := try(func() { p = graph.CanonicalIsomorph(g) }); pan {
+	if msg, pan := try(func() { p = append([]int(nil), graph.CanonicalIsomorph(g)...) }); pan {
 		return 0, "canonical/panic", fmt.Sprintf("CanonicalIsomorph(%s %s) panics: %s", rep, g6(n, mask), msg)
 	}
 	if !isPerm(p, n) {
@@ -310,7 +310,46 @@ func c01Regular(c *Ctx, n int, degrees []int) {
 
 var classCounts = []int{1, 1, 2, 4, 11, 34, 156, 1044, 12346}
 
+// c01Held: a permutation returned by CanonicalIsomorph belongs to the caller: later calls (on other graphs, of
+// other sizes) must not change it. All ordered pairs over the graphs with n <= 4 and triples over n <= 3, run
+// sequentially in one goroutine.
+func c01Held(c *Ctx) {
+	type lg struct {
+		n    int
+		mask uint64
+	}
+	var small []lg
+	for n := 0; n <= 4; n++ {
+		for m := uint64(0); m < 1<<uint(edgeCount(n)); m++ {
+			small = append(small, lg{n, m})
+		}
+	}
+	call := func(x lg) []int {
+		var p []int
+		try(func() { p = graph.CanonicalIsomorph(denseFromMask(x.n, x.mask)) })
+		return p
+	}
+	var cnt int64
+	for _, a := range small {
+		for _, b := range small {
+			a, b := a, b
+			c.Check(func() *Failure {
+				p := call(a)
+				snap := append([]int{}, p...)
+				q := call(b)
+				if !intsEq(p, snap) {
+					return &Failure{Class: "canonical/returned-permutation-changed-by-a-later-call", What: fmt.Sprintf("CanonicalIsomorph(%s) returned %v; after CanonicalIsomorph(%s) = %v the first slice reads %v", g6(a.n, a.mask), snap, g6(b.n, b.mask), q, p), Kind: "canon-held", Replay: []canonCase{{N: a.n, Mask: a.mask, Rep: "dense"}, {N: b.n, Mask: b.mask, Rep: "dense"}}}
+				}
+				return nil
+			})
+			cnt++
+		}
+	}
+	c.SetCount("held_result_pairs", cnt)
+}
+
 func runC01(c *Ctx) {
+	c01Held(c)
 	c.Level = "exploration"
 	c.Rule = "every labelled graph on n vertices (all 2^(n(n-1)/2) edge sets; the set is closed under relabelling, so invariance under the two generators (0 1) and (0 1 .. n-1) of S_n for every member is invariance under all n! relabellings); plus one representative of every isomorphism class on 8 and 9 vertices under a battery of relabellings, disjoint unions of up to three small components under all transpositions and pseudo-random relabellings, whole relabelling-closed families of regular graphs on 8-10 vertices and hard named graphs (n<=16) and irregular graphs with 23-36 vertices (merge phase of the refinement's stable sort) under bounded-distance and pseudo-random relabellings; non-trivial = labelled graph with a non-trivial automorphism group (orbit smaller than n!) or regular (unit partition equitable, search must branch)"
 	maxAll := 7
@@ -410,6 +449,19 @@ func replayC01(kind string, raw json.RawMessage) *Failure {
 			return nil
 		}
 		return checkCanonInvariance(cc.Rep, cc.N, cc.Mask, cc.Perm)
+	case "canon-held":
+		var cs []canonCase
+		if err := json.Unmarshal(raw, &cs); err != nil || len(cs) != 2 {
+			return &Failure{Class: "replay/bad-file", What: fmt.Sprint(err)}
+		}
+		var p, q []int
+		try(func() { p = graph.CanonicalIsomorph(denseFromMask(cs[0].N, cs[0].Mask)) })
+		snap := append([]int{}, p...)
+		try(func() { q = graph.CanonicalIsomorph(denseFromMask(cs[1].N, cs[1].Mask)) })
+		if !intsEq(p, snap) {
+			return &Failure{Class: "canonical/returned-permutation-changed-by-a-later-call", What: fmt.Sprintf("%v became %v after a call returning %v", snap, p, q)}
+		}
+		return nil
 	case "canon-big":
 		var bc bigCanonCase
 		if err := json.Unmarshal(raw, &bc); err != nil {
